@@ -144,6 +144,19 @@ def main(run):
     run.cov['eq_roots_walked'] = n_roots
     if n_roots < 30:
         run.violation('floor|eq_roots', f'only {n_roots} eq roots in the instance graph')
+    # equality is defined on keys read from the text: (a) the decompositions parts() / reference_parts() must return the grammar's components
+    # (their span obligations — the C02 engine — run here for these two scanners), (b) the path key is the normalised segment sequence, whose
+    # fold step must be the RFC one (the C09 step rule, run here too): a wrong decomposition or a wrong step makes == merge or split values
+    from . import scanprop, c02
+    scanprop.run_property(run, 'C07', lambda o: o in c02.OWNERS, 20, 'decompositions behind ==', key_pred=lambda k: k[1].endswith(('::parts', '::reference_parts')))
+    from .. import normstep
+    probs, nst = normstep.analyse(P)
+    run.cov['sequence_step_cases'] = nst.get('cases', 0)
+    nb = P.bodies.get(normstep.FN)
+    for pr in probs:
+        import re as _re
+        run.violation(f'sequence|{_re.sub(r"^[^ ]+:[0-9]+ ", "", pr)[:90]}', f'{P.where(nb) if nb else "path.rs"} NormalizedSegmentsImpl::new (the path key of ==): {pr}')
+    run.floor('sequence_step_cases', 5, 'abstract cases of the normalising step')
     # equality between two different library types (owned vs borrowed, full vs reference) is the documented equivalence of their common
     # borrowed type applied to total views of both operands — never the plain-text comparison
     from .. import crosscmp
